@@ -291,11 +291,12 @@ Inductive which := WIn | WOut.
 
 (* the four uid lists of ACalcDbToDb (ACalcDbToDb.hpp) + CalcKriging/CalcSimuTurningBands::_nameCoord *)
 Record book := mkbook { b_perm_in : list Z; b_perm_out : list Z; b_temp_in : list Z; b_temp_out : list Z;
+                        b_saved : list (which * (Z * list Z));   (* locator lists put aside (fixes/C19_8.patch only) *)
                         b_name_coord : list str }.
 (* s_alias: dbin and dbout are the same object (xvalid, dbRegression with db2 = nullptr) *)
 Record st := mkst { s_in : db; s_out : db; s_alias : bool; s_book : book; s_slots : list Z }.
 
-Definition empty_book : book := mkbook [] [] [] [] [].
+Definition empty_book : book := mkbook [] [] [] [] [] [].
 Definition init_st (din dout : db) (alias : bool) : st := mkst din dout alias empty_book (repeat (-1) 8).
 
 Definition getdb (w : which) (s : st) : db :=
@@ -314,10 +315,10 @@ Definition set_slot (s : st) (i : nat) (v : Z) : st :=
 (* ACalcDbToDb::_storeInVariableList (ACalcDbToDb.cpp:208) *)
 Definition store_in_list (w : which) (status : Z) (us : list Z) (b : book) : book :=
   match w with
-  | WIn => if status =? 1 then mkbook (b_perm_in b ++ us) (b_perm_out b) (b_temp_in b) (b_temp_out b) (b_name_coord b)
-          else mkbook (b_perm_in b) (b_perm_out b) (b_temp_in b ++ us) (b_temp_out b) (b_name_coord b)
-  | WOut => if status =? 1 then mkbook (b_perm_in b) (b_perm_out b ++ us) (b_temp_in b) (b_temp_out b) (b_name_coord b)
-           else mkbook (b_perm_in b) (b_perm_out b) (b_temp_in b) (b_temp_out b ++ us) (b_name_coord b)
+  | WIn => if status =? 1 then mkbook (b_perm_in b ++ us) (b_perm_out b) (b_temp_in b) (b_temp_out b) (b_saved b) (b_name_coord b)
+          else mkbook (b_perm_in b) (b_perm_out b) (b_temp_in b ++ us) (b_temp_out b) (b_saved b) (b_name_coord b)
+  | WOut => if status =? 1 then mkbook (b_perm_in b) (b_perm_out b ++ us) (b_temp_in b) (b_temp_out b) (b_saved b) (b_name_coord b)
+           else mkbook (b_perm_in b) (b_perm_out b) (b_temp_in b) (b_temp_out b ++ us) (b_saved b) (b_name_coord b)
   end.
 
 (* ACalcDbToDb::_addVariableDb (ACalcDbToDb.cpp:246) *)
@@ -332,11 +333,11 @@ Definition clean_variables (status : Z) (s : st) : st :=
   if status =? 1 then
     let s1 := setdb WIn (delete_columns (getdb WIn s) (b_perm_in b)) s in
     let s2 := setdb WOut (delete_columns (getdb WOut s1) (b_perm_out b)) s1 in
-    with_book s2 (mkbook [] [] (b_temp_in b) (b_temp_out b) (b_name_coord b))
+    with_book s2 (mkbook [] [] (b_temp_in b) (b_temp_out b) (b_saved b) (b_name_coord b))
   else
     let s1 := setdb WIn (delete_columns (getdb WIn s) (b_temp_in b)) s in
     let s2 := setdb WOut (delete_columns (getdb WOut s1) (b_temp_out b)) s1 in
-    with_book s2 (mkbook (b_perm_in b) (b_perm_out b) [] [] (b_name_coord b)).
+    with_book s2 (mkbook (b_perm_in b) (b_perm_out b) [] [] (b_saved b) (b_name_coord b)).
 
 (* ACalcDbToDb::_renameVariable (ACalcDbToDb.cpp:274): names are always read in dbin *)
 Definition rename_variable (nc : namconv) (w : which) (names : list str) (tin nvar start : Z)
@@ -400,9 +401,10 @@ Definition center_data_to_grid (s : st) : st :=
 Inductive op :=
 | OAdd (w : which) (status t : Z) (n : st -> Z) (init : content) (slot : nat)
         (* slot = _addVariableDb(w, status, t, 0, n, init); if (slot < 0) return false *)
-| OAddUnreg (w : which) (n : st -> Z) (init : content) (slot : nat) (neg_ok : bool)
-        (* slot = db->addColumnsByConstant(n, init) (default radix "New"): NOT registered; a negative result returns
-           false, or true (!) when neg_ok (CalcAnamTransform.cpp:241 "return 1") *)
+| OAddUnreg (w : which) (t : Z) (n : st -> Z) (init : content) (radix : str) (slot : nat) (neg_ok : bool)
+        (* slot = db->addColumnsByConstant(n, init, radix, t, 0), NOT registered in the lists of this calculator (direct
+           call, or variable created by a calculator nested in the numerical body); a negative result returns false,
+           or true (!) when neg_ok *)
 | OClean (status : Z)
 | ORename (w : which) (names : st -> list str) (tin : Z) (nvar : st -> Z) (slot : nat) (off : Z)
           (qual : str) (count : st -> Z) (flagloc : bool)
@@ -417,7 +419,17 @@ Inductive op :=
 | OSetLocList (w : which) (us : list Z) (t : Z)      (* db->setLocatorsByUID(us, t, 0) *)
 | OSetLocs (w : which) (slot : nat) (n : st -> Z) (t : Z)   (* db->setLocatorsByUID(n, slot, t, 0) *)
 | OBody (tag : Z)    (* the numerical body: writes (only) into the registered variables *)
-| OWrite (w : which) (slot : nat) (n : st -> Z) (tag : Z).
+| OWrite (w : which) (slot : nat) (n : st -> Z) (tag : Z)
+| OWriteList (w : which) (us : list Z) (tag : Z)      (* a numerical body that overwrites given (pre-existing) variables *)
+| ODropLast (w : which) (tag : Z)
+                     (* CalcSimuPartition::_poisson (CalcSimuPartition.cpp:141,219): iattg = db->getColumnNumber() - 1 is used
+                        as a UID: that variable is overwritten, then deleted *)
+| OSaveLoc (w : which) (t : Z)
+                     (* fixes/C19_8.patch, in _addVariableDb(w, ., t, ..): the variables already carrying the locator t are
+                        remembered and lose it *)
+| ORestoreLocs       (* fixes/C19_8.patch, _restoreLocators(): the remembered locators are given back (last saved first) *)
+| ODeleteSlot (w : which) (slot : nat)                (* db->deleteColumnByUID(slot) *)
+| OWithNc (nc : namconv) (o : op).                    (* an operation of a nested calculator, with its own naming convention *)
                      (* numerical body of a calculator that does not register its variables: writes into the
                         n variables starting at slot *)
 
@@ -428,13 +440,13 @@ Definition all_registered (w : which) (s : st) : list Z :=
   | WOut => b_perm_out b ++ b_temp_out b ++ (if s_alias s then b_perm_in b ++ b_temp_in b else [])
   end.
 
-Definition exec_op (nc : namconv) (o : op) (s : st) : bool * st :=
+Fixpoint exec_op (nc : namconv) (o : op) (s : st) : bool * st :=
   match o with
   | OAdd w status t n init slot =>
       let '(s1, u) := add_variable w status t 0 (n s) init s in
       (0 <=? u, set_slot s1 slot u)
-  | OAddUnreg w n init slot neg_ok =>
-      let '(d', u) := add_columns (getdb w s) (n s) init s_new (-1) 0 in
+  | OAddUnreg w t n init radix slot neg_ok =>
+      let '(d', u) := add_columns (getdb w s) (n s) init radix t 0 in
       ((0 <=? u) || neg_ok, set_slot (setdb w d' s) slot u)
   | OClean status => (true, clean_variables status s)
   | ORename w names tin nvar slot off qual count flagloc =>
@@ -445,7 +457,7 @@ Definition exec_op (nc : namconv) (o : op) (s : st) : bool * st :=
       (true, if is_nil nm then s else setdb WIn (set_locators_by_names (getdb WIn s) nm L_X 0) s)
   | OCenter =>
       let b := s_book s in
-      (true, center_data_to_grid (with_book s (mkbook (b_perm_in b) (b_perm_out b) (b_temp_in b) (b_temp_out b)
+      (true, center_data_to_grid (with_book s (mkbook (b_perm_in b) (b_perm_out b) (b_temp_in b) (b_temp_out b) (b_saved b)
                                                      (names_by_locator (getdb WIn s) L_X))))
   | OExpand mode t reg => expand_information mode t reg s
   | OFail => (false, s)
@@ -458,6 +470,23 @@ Definition exec_op (nc : namconv) (o : op) (s : st) : bool * st :=
   | OWrite w slot n tag =>
       let u := get_slot s slot in
       (true, if u <? 0 then s else setdb w (write_cols (getdb w s) (seqz u (Z.to_nat (n s))) tag) s)
+  | OWriteList w us tag => (true, setdb w (write_cols (getdb w s) us tag) s)
+  | ODropLast w tag =>
+      let u := zlen (d_cols (getdb w s)) - 1 in
+      (true, setdb w (delete_column (write_cols (getdb w s) [u] tag) u) s)
+  | OSaveLoc w t =>
+      let old := getloc (d_locs (getdb w s)) t in
+      if is_nil old then (true, s) else
+      let b := s_book s in
+      (true, with_book (setdb w (clear_locators (getdb w s) t) s)
+                       (mkbook (b_perm_in b) (b_perm_out b) (b_temp_in b) (b_temp_out b) ((w, (t, old)) :: b_saved b) (b_name_coord b)))
+  | ORestoreLocs =>
+      let b := s_book s in
+      let s1 := fold_left (fun acc (e : which * (Z * list Z)) =>
+                             setdb (fst e) (set_locs_list (getdb (fst e) acc) (snd (snd e)) (fst (snd e)) 0) acc) (b_saved b) s in
+      (true, with_book s1 (mkbook (b_perm_in (s_book s1)) (b_perm_out (s_book s1)) (b_temp_in (s_book s1)) (b_temp_out (s_book s1)) [] (b_name_coord (s_book s1))))
+  | ODeleteSlot w slot => (true, setdb w (delete_column (getdb w s) (get_slot s slot)) s)
+  | OWithNc nc' o' => exec_op nc' o' s
   end.
 
 (* budget = Some k : the stage fails (returns false / throws) once k operations have been done,
